@@ -7,11 +7,31 @@ ALL = ["C%02d" % i for i in range(1, 21)]
 
 # id -> (category, technique, text, note, design_ref, engine)
 CHECKS = {
+ "C06": ("model_checking",
+         "bounded-exhaustive enumeration of read scripts (cut placements x short-read/would-block) over real AMQP byte streams through the real FrameBuffer, against an envelope-level reference",
+         "Every placement of up to 2 (thorough: 3) cuts, each a short read or a would-block, over every byte offset of streams up to 300 bytes and over a boundary menu for streams up to 9 KB (frame boundaries, size-field offsets, 4096-byte quantum +-2), plus one-byte-per-read, truncation+EOF at every offset and handler failure at each frame; the frames handed on, their timing relative to the read that completed them, byte counts and the final error are compared with a reference built from the stream's construction.",
+         "Bounds: at most 3 cuts per stream; streams are the 20 listed in the evidence. The end-to-end half (client reaction to identical streams cut differently) is covered by the simx scenarios, not here.",
+         "DESIGN.md §6 C06", "seqx"),
+ "C10": ("model_checking",
+         "explicit-state breadth-first search of the complete reachable state graph of the real ChannelSlots (via probe) with a reference set, plus counter-boundary sequences in child processes",
+         "Complete reachable state graph for channel_max 1..3 (thorough: 4) under open(Some(i)) for every i in 0..=max+1, open(None), close, close of a non-open id, failing slot construction and drain; every transition is judged against the statement and the open set compared with a reference set. The u16 boundary (channel_max 65535, counter at 65533..65535, all ids open) is driven by real calls in child processes with a wall limit so that a spinning allocator is a verdict.",
+         "ChannelSlots is driven through a probe, not through Connection::open_channel; the request/reply hand-over around it is exercised by the simx scenarios. State space complete only for channel_max <= 4.",
+         "DESIGN.md §6 C10", "seqx"),
  "C14": ("model_checking",
          "bounded-exhaustive enumeration of every confirmation history on the real ConfirmSmoother against a reference model",
          "Every valid confirmation history for up to 6 (thorough: 7) tags, five start tags incl. the u64 boundary, every early-drop pattern up to 4 tags, plus every arbitrary (duplicate/stale) sequence to depth 5 (6) for the safety half, each executed on the real public API and compared call by call with a first-cover reference model. Exhaustive inside those bounds; nothing is sampled.",
          "Bounds only: histories longer than 7 tags and arbitrary sequences deeper than 6 are not covered; tag u64::MAX itself is excluded.",
          "DESIGN.md §6 C14", "seqx"),
+ "C15": ("exploration",
+         "complete cartesian enumeration of (client, server) tuning values through the real make_tune_ok against an independent reference",
+         "Joint boundary product of all six values (592,900 combinations; thorough adds the complete u16 x u16 products for channel_max and heartbeat, 8.6e9 evaluations) compared with a five-line min-with-0-as-unlimited reference, including the FrameMaxTooSmall floor.",
+         "Covers the negotiation half only; 'then obeyed' (channel limit, frame splitting, heartbeat timing by the announced values) is not decided by this part.",
+         "DESIGN.md §6 C15", "seqx"),
+ "C19": ("exploration",
+         "complete cartesian enumeration of URLs assembled from component alphabets through the real URL decoding, oracle = the components (never re-parsed)",
+         "1.68 million URLs (thorough: more hosts and all ordered triples of valid parameters) assembled from scheme x userinfo x host x port x path x query alphabets; decoded host, port, credentials, vhost, heartbeat, channel_max, connection_timeout, auth mechanism or the specific error compared with the tuple the URL was built from; Connection::open on every accepted amqp:// shape must answer InsecureUrl.",
+         "Decoding is observed through a probe that runs the same three calls Connection::open runs before touching the network; the TCP loopback slice is not part of this check yet.",
+         "DESIGN.md §6 C19", "seqx"),
 }
 
 NOT_YET = "check not built yet in this round (planned, see DESIGN.md §6); not claimed"
